@@ -87,3 +87,105 @@ def _mk(prop):
 
 for _p in ('C19', 'C10', 'C14', 'C18', 'C08'):
     _mk(_p)
+
+
+# ---------------------------------------------------------------------------------------------- R-OWN-SENTINEL
+def _num(x):
+    """integer value of a constant expression tree (nullptr / {} = 0), None otherwise"""
+    if not isinstance(x, dict): return None
+    if x.get('op') == 'path':
+        p = x.get('p') or ''
+        if p in ('#null', '#false'): return 0
+        if p == '#true': return 1
+        if re.fullmatch(r'#-?\d+', p): return int(p[1:])
+        if p.startswith('<ctor ') : return 0          # value-initialised handle: coroutine_handle<>{}
+        return None
+    if x.get('op') == 'un' and x.get('o') == '-':
+        v = _num(x.get('e')); return None if v is None else -v
+    return None
+
+
+def _eval(c, member, x):
+    """truth of predicate tree c when this.<member> == x; None when the form is not understood"""
+    if not isinstance(c, dict): return None
+    op = c.get('op')
+    if op == 'path' or op == 'call':
+        p = c.get('p') or ''
+        if p in ('this.' + member, member, 'this.%s.operator bool()' % member): return x != 0
+        return None
+    if op == 'un' and c.get('o') == '!':
+        v = _eval(c.get('e'), member, x); return None if v is None else (not v)
+    if op == 'bin':
+        o = c.get('o')
+        if o in ('&&', '||'):
+            l, r = _eval(c.get('l'), member, x), _eval(c.get('r'), member, x)
+            if l is None or r is None: return None
+            return (l and r) if o == '&&' else (l or r)
+        L, R = c.get('l') or {}, c.get('r') or {}
+        def val(t):
+            if t.get('op') == 'path' and t.get('p') in ('this.' + member, member): return x
+            return _num(t)
+        a, b = val(L), val(R)
+        if a is None or b is None: return None
+        return {'==': a == b, '!=': a != b, '<': a < b, '<=': a <= b, '>': a > b, '>=': a >= b}.get(o)
+    return None
+
+
+def own_sentinel(run, F, prop):
+    """for every single-owner handle class, the validity predicate guarding the release in the destructor (the member itself, valid(), operator bool) separates exactly the "empty" constant the move constructor leaves in the source (-1, nullptr) from every other handle value (0 is a valid descriptor): decided by evaluating the comparison form on the sentinel and on representative non-sentinel values"""
+    n = 0
+    for rec, dtor, m in handle_classes(F):
+        q = rec['qname']
+        if next(pp for rx, pp in FILE_PROP if re.search(rx, rec['file'])) != prop: continue
+        # sentinel: constant exchanged/assigned into other.m by the move constructor
+        S = None
+        for g in F.by_record.get(q, []):
+            if not (g.get('ctor') and len(g.get('params', [])) == 1 and g['params'][0]['type'].endswith('&&') and g.get('blocks')): continue
+            other = g['params'][0]['name']
+            for b, i, e in events(g):
+                if e['k'] == 'call' and e['callee'].get('name') == 'exchange' and len(e.get('args', [])) == 2 and isinstance(e['args'][0], dict) \
+                        and e['args'][0].get('p') == '%s.%s' % (other, m):
+                    S = _num(e['args'][1])
+                if e['k'] == 'assign' and e['lhs'] == '%s.%s' % (other, m): S = _num(e.get('rhs'))
+        if S is None: continue
+        # predicate: destructor condition mentioning the member, looked through predicate methods
+        preds = []
+        G = Graph(dtor)
+        for t, e in G.ev.items():
+            if e.get('k') != 'term' or e.get('cond') is None: continue
+            c = e['cond']
+            for pth in expr_paths(c):
+                if pth in ('this.' + m, 'this.%s.operator bool()' % m): preds.append((c, dtor, G.line(t)))
+                mm = re.fullmatch(r'this\.(\w[\w ]*)\(\)', pth)
+                if mm:
+                    for g in F.by_record.get(q, []):
+                        if g['name'] == mm.group(1):
+                            for _, _, ev in events(g):
+                                if ev['k'] == 'ret' and ev.get('v') is not None and any(last_field(pp) == m or pp.endswith(m + '.operator bool()') for pp in expr_paths(ev['v'])):
+                                    preds.append((ev['v'], g, ev.get('line') or g['line']))
+        for c, g, line in preds:
+            vs = _eval(c, m, S)
+            others = [_eval(c, m, x) for x in (0, 1, 2, 7, 1 << 20) if x != S]
+            if vs is None or any(o is None for o in others):
+                continue
+            n += 1
+            run.inst('%s:%s %s' % (g['file'], line, q), 'validity predicate of %s: false for the empty value %s, true otherwise' % (m, S), key=(q, m, g['name']))
+            xs = [x for x in (0, 1, 2, 7, 1 << 20) if x != S]
+            same = [x for x, o in zip(xs, others) if o == vs]
+            if same:
+                run.violation(g['qname'], 'sentinel-not-separated:' + m, '%s:%s' % (g['file'], line),
+                              'the validity predicate of %s gives the same answer for the handle value(s) %s as for the empty value %s that the move constructor leaves behind: such a handle (e.g. descriptor 0) is treated as empty and never released, or the empty object is released' % (q.replace('unifex::', ''), same, S))
+    if n == 0: raise Broken('no handle class with a decidable validity predicate found for ' + prop)
+
+
+def _mks(prop):
+    rid = 'R-OWN-SENTINEL-' + prop
+    @rule(rid, [prop], floor=1, configs=(['d20', 'r20', 'v20'] if prop == 'C10' else None))
+    def r(run, F, prop=prop): own_sentinel(run, F, prop)
+    r.__doc__ = own_sentinel.__doc__
+    from .. import core
+    core.RULES[rid]['doc'] = r.__doc__
+
+
+for _p in ('C19', 'C10', 'C14', 'C18', 'C08'):
+    _mks(_p)
